@@ -431,7 +431,7 @@ fn history__decaps_agrees_with_chain_model_len3() {
     done();
 }
 
-// @obl props=C03,C04,C05,C06,C09,C13 tier=quick fn=api::Covercrypt::refresh_usk shape="21 hand-picked histories of 3 to 6 operations (double rekey then prune then refresh, delete then add then refresh, disable then rekey, ...), chain model, real cryptography"
+// @obl props=C03,C04,C05,C06,C09,C13 tier=quick fn=api::Covercrypt::refresh_usk shape="23 hand-picked histories of 3 to 6 operations (double rekey then prune then refresh, delete then add then refresh, disable then rekey, ...), chain model, real cryptography"
 #[test]
 fn history__targeted_long_sequences() {
     use Op::*;
@@ -444,6 +444,9 @@ fn history__targeted_long_sequences() {
         &[Rekey("DPT::FIN"), Disable("DPT", "FIN"), Rekey("DPT::FIN"), Roundtrip, Prune("DPT::FIN")],
         &[Rekey("DPT::FIN"), Refresh(0, true), Refresh(0, false), Refresh(1, true), Refresh(1, false)],
         &[Rekey("SEC::TOP"), Rekey("DPT::FIN"), Refresh(0, true), Refresh(0, false)],
+        // a refreshed key (2 revisions) is stored and reloaded, then follows the next rotation
+        &[Rekey("DPT::FIN"), Refresh(0, true), Roundtrip, Rekey("DPT::FIN"), Refresh(0, true)],
+        &[Rekey("DPT::FIN"), Refresh(0, true), Roundtrip, Refresh(0, false), Refresh(1, true)],
         // a key that missed a rekey is refreshed only after the attribute was disabled: it still receives the secret in use before
         &[Rekey("DPT::FIN"), Disable("DPT", "FIN"), Refresh(0, true)],
         &[Rekey("DPT::FIN"), Rekey("SEC::LOW && DPT::FIN"), Disable("DPT", "FIN"), Refresh(1, true), Refresh(0, false)],
